@@ -444,7 +444,10 @@ fn parent_elem_from_path(path: &str) -> Result<(&str, &str), Error> {
 
 fn build_disclosure(claims: &mut Value, disclosable_claim: &str) -> Result<Disclosure, Error> {
     let (parent_ptr, elem_ptr) = parent_elem_from_path(disclosable_claim)?;
-    let key = elem_ptr.trim_start_matches('/');
+    let key = &elem_ptr
+        .trim_start_matches('/')
+        .replace("~1", "/")
+        .replace("~0", "~");
 
     let parent = claims
         .pointer_mut(parent_ptr)
